@@ -702,6 +702,8 @@ def verify_contract(ctx, contract: Contract, prop: str):
         cov.expect_sat = True
         old_path = p0.fork()
         body_path = p0.fork()
+        task.entry_path = old_path          # `old(...)` inside loop invariants
+        task.func = f
         for q, o in run_body_outcomes(ctx, body_path, f, env):
             work.append((old_path, q, o))
     ctx.current = None
